@@ -37,6 +37,14 @@ def sh(cmd, timeout=None, env=None, cwd=None, check=True, stdout_path=None):
     else:
         p = subprocess.run(cmd, stdout=subprocess.PIPE, stderr=subprocess.PIPE, text=True, timeout=timeout, env=e, cwd=cwd)
         out = p.stdout
+    if p.returncode == 86 and "STALL " in (p.stderr or ""):
+        # the harness' watchdog: the code under test made no progress on an input (a spin is data about the code)
+        info = {}
+        try:
+            info = json.loads(p.stderr.split("STALL ", 1)[1].split("\n")[0])
+        except Exception:
+            pass
+        raise Stall(info.get("t", ""), info.get("secs", 0), " ".join(cmd[:3]))
     if check and p.returncode != 0:
         raise ToolError("command failed (%d): %s\n%s\n%s" % (p.returncode, " ".join(cmd), out[-2000:], p.stderr[-4000:]))
     return p.returncode, out, p.stderr, time.time() - t0
@@ -89,6 +97,13 @@ def vh_json(args, timeout=3600, env=None):
     if not lines:
         raise ToolError("vh %s produced no summary\n%s" % (args[0], err[-2000:]))
     return json.loads(lines[-1])
+
+
+class Stall(Exception):
+    """The real code made no progress for `secs` seconds on input `text` (reported by the harness' watchdog)."""
+    def __init__(self, text, secs, cmd):
+        Exception.__init__(self, "no progress for %s s on %r (%s)" % (secs, text[:120], cmd))
+        self.text, self.secs, self.cmd = text, secs, cmd
 
 
 class TlcResult:
